@@ -126,17 +126,22 @@ Definition retained (lv : list (list Z)) : Z := fold_right (fun l a => len l + a
 Definition num_retained (s : kll) : Z := retained (levels s).
 Definition free (s : kll) : Z := cap s - num_retained s.            (* levels_[0] *)
 
-Fixpoint set_nth {A} (n : nat) (v : A) (l : list A) : list A :=
-  match l with
-  | [] => []
-  | x :: t => match n with O => v :: t | S n' => x :: set_nth n' v t end
-  end.
-
 (* find_level_to_compact *)
 Fixpoint find_level (k : Z) (nl h : nat) (ls : list (list Z)) : option nat :=
   match ls with
   | [] => None                        (* "capacity calculation error" *)
   | l :: r => if level_capacity k nl h <=? len l then Some h else find_level k nl (S h) r
+  end.
+
+(* levels h and h+1 replaced by the outcome of compacting level h (a new top level appears when h was the top) *)
+Fixpoint compact_at (h : nat) (sort0 c : bool) (lv : list (list Z)) : list (list Z) :=
+  match lv with
+  | [] => []
+  | raw :: rest =>
+      match h with
+      | O => let '(lo, up) := compact_level sort0 raw (hd [] rest) c in lo :: up :: tl rest
+      | S h' => raw :: compact_at h' sort0 c rest
+      end
   end.
 
 (* compress_while_updating (called when levels_[0] == 0) *)
@@ -145,13 +150,9 @@ Definition compress_upd (s : kll) : M kll :=
   match find_level (kk s) nl 0 (levels s) with
   | None => Ret s
   | Some h =>
-      (* add_empty_top_level_to_completely_full_sketch *)
-      let top := (S h =? nl)%nat in
-      let lv := if top then levels s ++ [[]] else levels s in
-      let cp := if top then cap s + level_capacity (kk s) (S nl) 0 else cap s in
-      Flip (fun c =>
-        let '(lo, up) := compact_level ((h =? 0)%nat && negb (l0s s)) (nth h lv []) (nth (S h) lv []) c in
-        Ret (set_levels s (set_nth (S h) up (set_nth h lo lv)) cp))
+      (* add_empty_top_level_to_completely_full_sketch: the buffer grows by the capacity of the new bottom level *)
+      let cp := if (S h =? nl)%nat then cap s + level_capacity (kk s) (S nl) 0 else cap s in
+      Flip (fun c => Ret (set_levels s (compact_at h ((h =? 0)%nat && negb (l0s s)) c (levels s)) cp))
   end.
 
 Definition push0 (s : kll) (x : Z) : kll :=       (* n_++; is_level_zero_sorted_ = false; items_[--levels_[0]] = x *)
@@ -184,28 +185,29 @@ Fixpoint zip_levels (a b : list (list Z)) : list (list Z) :=
   end.
 
 (* general_compress.  cur = current_level, nl = current_num_levels, cnt = current_item_count,
-   tgt = target_item_count, ins = in_levels from cur upwards, out_rev = out levels below cur (reversed).
-   Result: (levels, final_capacity). *)
+   tgt = target_item_count, ins = in_levels from cur upwards.  Result: (out levels from cur upwards, final_capacity). *)
+Definition cons_fst {A B} (a : A) (r : list A * B) : list A * B := (a :: fst r, snd r).
+
 Fixpoint gc (fuel : nat) (k : Z) (s0 : bool) (cur nl : nat) (cnt tgt : Z)
-         (ins out_rev : list (list Z)) : M (list (list Z) * Z) :=
+         (ins : list (list Z)) : M (list (list Z) * Z) :=
   match fuel with
-  | O => Ret (rev_append out_rev ins, tgt)
+  | O => Ret (ins, tgt)
   | S f =>
     match ins with
-    | [] => Ret (rev out_rev, tgt)
+    | [] => Ret ([], tgt)
     | raw :: rest =>
       if (cnt <? tgt) || (len raw <? level_capacity k nl cur) then
         (* move level over as is *)
-        if (S cur =? nl)%nat then Ret (rev_append out_rev (raw :: rest), tgt)
-        else gc f k s0 (S cur) nl cnt tgt rest (raw :: out_rev)
+        if (S cur =? nl)%nat then Ret (raw :: rest, tgt)
+        else bind (gc f k s0 (S cur) nl cnt tgt rest) (fun r => Ret (cons_fst raw r))
       else
         Flip (fun c =>
-          let '(lo, up) := compact_level ((cur =? 0)%nat && negb s0) raw (hd [] rest) c in
+          let lu := compact_level ((cur =? 0)%nat && negb s0) raw (hd [] rest) c in
           let cnt' := cnt - len raw / 2 in
           let top := (S cur =? nl)%nat in
           let nl' := if top then S nl else nl in
           let tgt' := if top then tgt + level_capacity k (S nl) 0 else tgt in
-          gc f k s0 (S cur) nl' cnt' tgt' (up :: tl rest) (lo :: out_rev))
+          bind (gc f k s0 (S cur) nl' cnt' tgt' (snd lu :: tl rest)) (fun r => Ret (cons_fst (fst lu) r)))
     end
   end.
 
@@ -213,7 +215,7 @@ Definition merge_higher (s o : kll) : M kll :=
   let prov := Nat.max (length (levels s)) (length (levels o)) in
   let work := hd [] (levels s) :: zip_levels (tl (levels s)) (tl (levels o)) in
   let cnt := retained work in
-  bind (gc (length work + Z.to_nat cnt + 2) (kk s) (l0s s) 0 prov cnt (total_capacity (kk s) prov) work [])
+  bind (gc (length work + Z.to_nat cnt + 2) (kk s) (l0s s) 0 prov cnt (total_capacity (kk s) prov) work)
        (fun r => Ret (set_levels s (fst r) (snd r))).
 
 Definition merge (s o : kll) : M kll :=
